@@ -1742,7 +1742,7 @@ class Calendar(Component):
         >>> calendar.get_missing_tzids()  # check that all are added
         set()
         """
-        for tzid in self.get_missing_tzids():
+        for tzid in sorted(self.get_missing_tzids()):
             try:
                 timezone = Timezone.from_tzid(
                     tzid,
